@@ -289,6 +289,78 @@ def h_files(sel, idx_req):
     return h
 
 
+def h_yidx(sel):
+    """queries by variable through the plotting loader (memory mode): the columns addressed are those of the variables asked for,
+    in the order asked, whatever the mix of states and algebraic variables"""
+    def h(I):
+        import andes.plot as PL
+        ss = get_sys(sel)
+        dae = ss.dae
+        keep = selected(ss, sel)
+        xcols = sorted(a for c, a in keep if c == 'x') if keep is not None else list(range(dae.n))
+        ycols = sorted(a for c, a in keep if c == 'y') if keep is not None else list(range(dae.m))
+        names = ['Time [s]'] + [dae.x_name[a] for a in xcols] + [dae.y_name[a] for a in ycols]
+        td = PL.TDSData.__new__(PL.TDSData)
+        td.dae = dae
+        quiet = NS(info=lambda *a, **k: None, debug=lambda *a, **k: None, warning=lambda *a, **k: None)
+        proc = pysym.rebind(PL.TDSData._process_yidx, logger=quiet)
+
+        def want(var):
+            cols, src, off = (xcols, dae.x_name, 1) if var.v_code == 'x' else (ycols, dae.y_name, 1 + len(xcols))
+            return [off + cols.index(int(a)) for a in var.a if int(a) in cols]
+        out = []
+        V = {'Bus.v': ss.Bus.v, 'GENCLS.omega': ss.GENCLS.omega, 'GENCLS.delta': ss.GENCLS.delta, 'Bus.a': ss.Bus.a, 'TGOV1.pout': ss.TGOV1.pout}
+        for combo in (('Bus.v',), ('GENCLS.omega',), ('GENCLS.omega', 'Bus.v'), ('Bus.v', 'GENCLS.omega'), ('Bus.a', 'GENCLS.delta', 'Bus.v', 'GENCLS.omega'),
+                      ('TGOV1.pout', 'GENCLS.omega', 'GENCLS.delta')):
+            exp = [k for nm in combo for k in want(V[nm])]
+            got = [int(k) for k in proc(td, [V[nm] for nm in combo], None)]
+            out.append((f'query [{", ".join(combo)}] addresses the columns of exactly those variables, in that order', got == exp))
+            if got == exp:
+                out.append((f'query [{", ".join(combo)}]: the labels at those columns name the variables asked for',
+                            all(names[k].split(' ')[0] == nm.split('.')[1] for nm in combo for k in want(V[nm]))))
+        return out
+    return h
+
+
+def h_replay(I):
+    """replay from csv through the real TDS.run: every row of the file becomes exactly one stored row, at its own time, with its
+    own values (the file content is a table of distinct tags; no symbolic input: the run is deterministic)"""
+    import andes.routines.tds as TD
+    _SYS.pop('replay', None)
+    OUTPUTS.setdefault('replay', [])
+    ss = get_sys('replay')          # a system of its own: TDS.run initialises it
+    _SYS.pop('replay', None)
+    dae = ss.dae
+    ss.TDS.initialized = False
+    ss.TDS.data_csv = None
+    ss.TDS.k_csv = 0
+    ss.dae.t = np.array(-1.0)          # not yet initialised: TDS.run takes the init path, not the resume path
+    times = [0.0, 0.05, 0.1, 0.2, 0.25]
+    ncol = 1 + dae.n + dae.m
+    data = np.array([[t] + [1000.0 * (r + 1) + cidx for cidx in range(1, ncol)] for r, t in enumerate(times)])
+    orig = TD.TDS._load_csv
+
+    def fake_load(self, path):
+        self.config.t0, self.config.tf = data[0, 0], data[-1, 0]
+        return data
+    TD.TDS._load_csv = fake_load
+    old_tf = ss.TDS.config.tf
+    try:
+        ok = ss.TDS.run(from_csv='table.csv')
+    finally:
+        TD.TDS._load_csv = orig
+        ss.TDS.data_csv, ss.TDS.from_csv = None, None
+        ss.TDS.config.tf = old_tf
+        ss.TDS.initialized = False
+    ts = dae.ts
+    ts.unpack_np(None)
+    out = [('replay stores one row per row of the file, at the times of the file', len(ts.t) == len(times) and bool(np.allclose(ts.t, times, atol=1e-12)))]
+    if len(ts.t) == len(times):
+        out.append(('every replayed row holds the values of its own row of the file',
+                    bool(np.array_equal(ts.x, data[:, 1:dae.n + 1])) and bool(np.array_equal(ts.y, data[:, dae.n + 1:]))))
+    return out
+
+
 def job(spec):
     import logging
     logging.getLogger('andes').setLevel(60)
@@ -298,6 +370,10 @@ def job(spec):
                      region=lambda v, c: ('device-subset query on partially stored variable: ' if 'not stored' in c or "for device #" in c else '') + c.split(' of step')[0])
     if kind == 'thin':
         return H.run(f'TDS.run storing branch [save_every={arg[0]}, step {arg[1]}]', h_thinning(*arg), max_paths=4000, region=lambda v, c: c.split(' with ')[0])
+    if kind == 'yidx':
+        return H.run(f'TDSData._process_yidx [Output: {arg}]', h_yidx(arg), region=lambda v, c: c.split(': ')[-1] if ': ' in c else 'columns of a query')
+    if kind == 'replay':
+        return H.run('TDS.run(from_csv) on a table of tags', h_replay, region=lambda v, c: c)
     if kind == 'files':
         return H.run(f'write_lst -> load_lst -> export_csv -> loader [Output: {arg[0]}, columns {arg[1]}]', h_files(*arg), region=lambda v, c: c)
     if kind == 'chunks':
@@ -315,8 +391,8 @@ def main():
     import andes.routines.tds as TD
     import andes.plot as PL
     ck.encodes(DA.DAE.store, DA.DAETimeSeries.unpack_np, DA.DAETimeSeries.get_data, DA.DAETimeSeries._access_array, DA.DAE.write_npz,
-               SY.System.set_output_subidx, OU.Output.to_output_addr, OU.Output.in1d, TD.TDS.run, TD.TDS.save_output, DA.DAE.write_lst, PL.TDSData.load_lst,
-               PL.TDSData.export_csv, PL.TDSData.get_header, PL.TDSData.get_values, PL.TDSData.load_npy_or_csv)
+               SY.System.set_output_subidx, OU.Output.to_output_addr, OU.Output.in1d, TD.TDS.run, TD.TDS.save_output, DA.DAE.write_lst, TD.TDS._csv_step, TD.TDS._csv_data_to_dae, TD.TDS.calc_h, PL.TDSData.load_lst,
+               PL.TDSData.export_csv, PL.TDSData._process_yidx, PL.TDSData.get_header, PL.TDSData.get_values, PL.TDSData.load_npy_or_csv)
     thorough = core.tier() == 'thorough'
     ck.bound(steps=3, system='3-bus, GENCLS x3, TGOV1 x2', selections=list(OUTPUTS), save_every='0..3, step numbers 0..3', chunks='<= 3 off-loads of <= 2 rows')
     ck.stub('numpy.zeros allocates object arrays in exploration (unpack_np, get_data)', 'np.savez_compressed / np.load / np.savetxt / np.loadtxt / open -> in-memory files',
@@ -327,7 +403,7 @@ def main():
     R, K = True, False      # cleared after the off-load (in-loop) / kept (write at the end of a run, then resumed)
     jobs += [('chunks', c) for c in (((2, R),), ((2, R), (1, R)), ((1, R), (2, R), (2, R)), ((2, K), (1, K)), ((1, K), (2, R), (1, K), (1, K)),
                                      ((2, R), (0, R), (1, K), (0, K), (2, K)))]
-    jobs += [('files', (s, cols)) for s in OUTPUTS for cols in (None, (3, 1), (2, 0, 4))]
+    jobs += [('files', (s, cols)) for s in OUTPUTS for cols in (None, (3, 1), (2, 0, 4))] + [('replay', 0)] + [('yidx', s) for s in OUTPUTS]
     ck.merge(core.pmap(job, jobs))
     ck.sample({'store': 'x{step}_{slot}, y{step}_{slot} symbols; Output selections: ' + ', '.join(OUTPUTS)})
     ck.finish()
